@@ -550,6 +550,8 @@ def gen_history(fns, rng, maxlen):
                     ks.append(rng.choice(pool))
                 if isinstance(o, M.GridType) and any(not isinstance(c, M.BaseType) for c in o._dict.values()):
                     continue
+                if isinstance(o, M.GridType) and not ks:
+                    continue        # grid[()] is an index (C02/C14), not a selection of children
                 if isinstance(o, M.SequenceType) and o._data is not None and not seq_data_ok(M, o):
                     continue
                 do(("select", h, path, ks))
